@@ -145,22 +145,136 @@ func canon(v any) string {
 	return string(b)
 }
 
-// subQuery is the part of a subscription query the reference model understands.
+// subQuery is the part of a query text the reference model understands.
 type subQuery struct {
 	Understood bool
 	DB         string
 	Prefix     string
-	CondAGt0   bool // "where a > 0"
+	CondAGt0   bool  // "where a > 0"
+	Expr       *expr // where-clause over "<field> exists" terms, nil if none
 }
 
-var subQueryRe = regexp.MustCompile(`^query ([A-Za-z0-9_-]+):([A-Za-z0-9]*)( where a > 0)?$`)
+var subQueryRe = regexp.MustCompile(`^query ([A-Za-z0-9_-]+):([A-Za-z0-9/]*)( where (.+))?$`)
 
 func parseSubQuery(text string) subQuery {
 	m := subQueryRe.FindStringSubmatch(text)
 	if m == nil {
 		return subQuery{}
 	}
-	return subQuery{Understood: true, DB: m[1], Prefix: m[2], CondAGt0: m[3] != ""}
+	sq := subQuery{Understood: true, DB: m[1], Prefix: m[2]}
+	switch {
+	case m[3] == "":
+	case m[4] == "a > 0":
+		sq.CondAGt0 = true
+	default:
+		e, ok := parseExpr(strings.Fields(m[4]))
+		if !ok {
+			return subQuery{}
+		}
+		sq.Expr = e
+	}
+	return sq
+}
+
+// expr is the reference form of the documented where-clause semantics for the
+// fragment used by the templates:
+//
+//	group := term { "and" term } | term { "or" term }      (no mixing)
+//	term  := [ "not" ] ( "(" group ")" | field "exists" | field "not" "exists" )
+//
+// A "not" in front of a term negates that term only.
+type expr struct {
+	op    string // exists | not | and | or
+	field string
+	sub   []*expr
+}
+
+func parseExpr(tok []string) (*expr, bool) {
+	pos := 0
+	var group func() (*expr, bool)
+	term := func() (*expr, bool) {
+		neg := false
+		if pos < len(tok) && tok[pos] == "not" {
+			neg = true
+			pos++
+		}
+		var e *expr
+		switch {
+		case pos < len(tok) && tok[pos] == "(":
+			pos++
+			g, ok := group()
+			if !ok || pos >= len(tok) || tok[pos] != ")" {
+				return nil, false
+			}
+			pos++
+			e = g
+		case pos+1 < len(tok) && simpleKeyRe.MatchString(tok[pos]) && tok[pos+1] == "exists":
+			e = &expr{op: "exists", field: tok[pos]}
+			pos += 2
+		case pos+2 < len(tok) && simpleKeyRe.MatchString(tok[pos]) && tok[pos+1] == "not" && tok[pos+2] == "exists":
+			e = &expr{op: "not", sub: []*expr{{op: "exists", field: tok[pos]}}}
+			pos += 3
+		default:
+			return nil, false
+		}
+		if neg {
+			e = &expr{op: "not", sub: []*expr{e}}
+		}
+		return e, true
+	}
+	group = func() (*expr, bool) {
+		first, ok := term()
+		if !ok {
+			return nil, false
+		}
+		terms := []*expr{first}
+		op := ""
+		for pos < len(tok) && (tok[pos] == "and" || tok[pos] == "or") {
+			if op != "" && tok[pos] != op {
+				return nil, false
+			}
+			op = tok[pos]
+			pos++
+			t, ok := term()
+			if !ok {
+				return nil, false
+			}
+			terms = append(terms, t)
+		}
+		if len(terms) == 1 {
+			return first, true
+		}
+		return &expr{op: op, sub: terms}, true
+	}
+	e, ok := group()
+	if !ok || pos != len(tok) {
+		return nil, false
+	}
+	return e, true
+}
+
+func (e *expr) eval(obj map[string]any) bool {
+	switch e.op {
+	case "exists":
+		_, ok := obj[e.field]
+		return ok
+	case "not":
+		return !e.sub[0].eval(obj)
+	case "and":
+		for _, s := range e.sub {
+			if !s.eval(obj) {
+				return false
+			}
+		}
+		return true
+	default: // or
+		for _, s := range e.sub {
+			if s.eval(obj) {
+				return true
+			}
+		}
+		return false
+	}
 }
 
 func splitKey(key string) (db, dbKey string) {
